@@ -34,6 +34,11 @@
       operation arguments) — the `add`-built theorems are the special case `built_circuit_meets_spec`.
 -/
 import GraphiqModel.Proofs.MetricsHistCheck
+import GraphiqModel.Proofs.MetricsHistLongest
+import GraphiqModel.Proofs.MetricsHistChain
+import GraphiqModel.Proofs.MetricsHistIso
+import GraphiqModel.Proofs.MetricsHistEdits
+import GraphiqModel.Proofs.MetricsHistInsert
 import GraphiqModel.Properties.C12
 namespace Graphiq.C18
 open Graphiq Graphiq.Dag Graphiq.Metrics
@@ -299,11 +304,13 @@ theorem every_circuit_has_a_schedule {c : Dag} {P : Reg → List NodeId} (g : Go
 
 /-- all metrics of `c` equal their op-list specifications on the operation list `ops` -/
 structure MetricsMeetSpec (c : Dag) (ops : List Op) : Prop where
+  emitters : Metrics.emitterCount c = (c.nodeIds.filter (fun n => match n with | .inp r => r.ty = .e | _ => false)).length
   cnot : Metrics.cnotCount c = Spec.cnotCount ops
   measure : Metrics.measureCount c = Spec.measureCount ops
   unitary : Metrics.unitaryCount c = .ok (Spec.unitaryCount ops)
   register_depth : ∀ t, c.calculateRegDepth t = .ok ((List.range (c.regs t)).map (fun i => (Spec.regDepth ops ⟨t, i⟩ : Int)))
   depth : c.nodeIds ≠ [] → ∀ Lp, LongestPathSpec c Lp → Metrics.circuitDepthWith Lp = (Spec.depth ops : Int)
+  depth_model : c.nodeIds ≠ [] → Metrics.circuitDepth c = (Spec.depth ops : Int)
   max_emitter_depth : Metrics.maxEmitDepth c = Spec.maxEmitDepth c.nE ops
   reset_depth : Metrics.maxEmitResetDepth c = Spec.maxEmitResetDepth c.nE ops
   effective_depth : Metrics.maxEmitEffDepth c = Spec.maxEmitEffDepth c.nE ops
@@ -316,14 +323,32 @@ structure MetricsMeetSpec (c : Dag) (ops : List Op) : Prop where
     `L.map snd`.  No reference to how the circuit was made. -/
 theorem metrics_eq_spec_on_any_schedule {c : Dag} {P : Reg → List NodeId} {L : List (NodeId × Op)} (g : Good c P)
     (hpl : AllPlain c) (hS : Sched c P L) : MetricsMeetSpec c (L.map (·.2)) :=
-  { cnot := cnotCount_eq_spec_sched g hpl hS
+  { emitters := emitter_count_eq_inputs ⟨_, g⟩
+    cnot := cnotCount_eq_spec_sched g hpl hS
     measure := measureCount_eq_spec_sched g hpl hS
     unitary := unitaryCount_eq_spec_sched g hpl hS
     register_depth := calculateRegDepth_eq_spec_sched g hpl hS
     depth := fun hne _ hLp => circuitDepth_eq_spec_sched g hpl hS hne hLp
+    depth_model := fun hne => circuitDepth_model_eq_spec g hpl hS hne
     max_emitter_depth := maxEmitDepth_eq_spec_sched g hpl hS
     reset_depth := maxEmitResetDepth_eq_spec_sched g hpl hS
     effective_depth := maxEmitEffDepth_eq_spec_sched g hpl hS }
+
+/-- **the model's own longest-path computation meets the recorded networkx specification** (`Dag.longestPathLen`, the memoised
+    depth-first evaluation the driver uses for `depth`): some directed walk has that many edges and none has more — on every
+    circuit satisfying DagInv with plain operations.  So `Metrics.circuitDepth` — the value compared with the implementation's
+    `CircuitDepth` on every input — equals `Spec.depth` of any schedule (`MetricsMeetSpec.depth_model`): for the model's instance
+    no hypothesis about networkx is left. -/
+theorem model_longest_path_meets_nx_spec {c : Dag} {P : Reg → List NodeId} (g : Good c P) (hpl : AllPlain c) :
+    LongestPathSpec c c.longestPathLen := longestPathLen_spec g hpl
+
+/-- every node of such a circuit has a `_max_depth` value, and the literal un-memoised recursion returns it with the model's fuel
+    (`len(nodes) + 1`) — termination of `_max_depth` on every reachable circuit -/
+theorem max_depth_terminates_on_every_node {c : Dag} {P : Reg → List NodeId} (g : Good c P) (hpl : AllPlain c) :
+    ∀ n ∈ c.nodeIds, ∃ d : Int, c.maxDepth (c.nodes.length + 1) n = .ok d := by
+  intro n hn
+  obtain ⟨d, hd, hb⟩ := all_hasDepth g hpl n hn
+  exact ⟨d, maxDepth_of_hasDepth hd _ (by push_cast; omega)⟩
 
 /-- … in particular with the operations in ANY topological order (what `sequence()` hands to the compilers) -/
 theorem metrics_eq_spec_in_any_topological_order {c : Dag} {P : Reg → List NodeId} (g : Good c P) (hpl : AllPlain c)
@@ -361,6 +386,203 @@ theorem metrics_eq_spec_of_wires {c : Dag} {P : Reg → List NodeId} (g : Good c
 theorem canonical_schedule_is_schedule {c : Dag} {P : Reg → List NodeId} (g : Good c P) : Sched c P (compSched c) :=
   compSched_sched g
 
+/-! ### the edits act on the specification's operation list as list edits
+
+  append (`add`), erase (`remove_op`), replace in place (`replace_op`), flatMap-unwrap (`unwrap_nodes`), filter (`remove_identity`):
+  for each, all metrics of the circuit after the edit equal the specifications on the edited operation list of ANY schedule of the
+  circuit before.  (`insert_at` inserts the operation at a position compatible with the chosen edges, and `group_one_qubit_gates`
+  fuses runs per wire — C12 §7; for those two the operation list after the edit is that of any schedule of the result.) -/
+
+/-- plainness of the circuit from plainness of the scheduled operations -/
+theorem allPlain_of_schedule {c : Dag} {P : Reg → List NodeId} {L : List (NodeId × Op)} (hS : Sched c P L)
+    (h : ∀ o ∈ L.map (·.2), PlainOp' o) : AllPlain c := by
+  intro i o hm
+  exact plainOp'_of_wiredOp (h _ (List.mem_map.mpr ⟨_, hS.mem_of_node hm, rfl⟩))
+
+/-- **`add(op)` = append**: when the call succeeds, all metrics afterwards equal the specifications on `ops ++ [op]` -/
+theorem metrics_after_add {c : Dag} {P : Reg → List NodeId} {L : List (NodeId × Op)} (g : Good c P) (hpl : AllPlain c)
+    (hS : Sched c P L) {op : Op} (hop : OpWF op) (hp : PlainOp' op) (hok : (c.add op).2 = none) :
+    MetricsMeetSpec (c.add op).1 (L.map (·.2) ++ [op]) := by
+  obtain ⟨P', g', hS'⟩ := add_sched_gen g hS hop hok
+  have hpl' : AllPlain (c.add op).1 := by
+    apply allPlain_of_schedule hS'
+    intro o ho
+    rw [List.map_append] at ho
+    rcases List.mem_append.mp ho with ho | ho
+    · exact (hS.wf_plain g hpl o ho).2
+    · simp at ho; rw [ho]; exact hp
+  have := metrics_eq_spec_on_any_schedule g' hpl' hS'
+  simpa using this
+
+/-- **`remove_op(node)` = erase**: the node's entry is removed from the operation list -/
+theorem metrics_after_remove_op {c : Dag} {P : Reg → List NodeId} {L : List (NodeId × Op)} (g : Good c P) (hpl : AllPlain c)
+    (hS : Sched c P L) {i : Nat} {w : Op} (hw : (NodeId.op i, w) ∈ c.nodes) :
+    ∃ L1 L2, L = L1 ++ (NodeId.op i, wiredOp P (.op i) w) :: L2 ∧
+      MetricsMeetSpec (c.removeOp (.op i)).1 (L1.map (·.2) ++ L2.map (·.2)) := by
+  obtain ⟨L1, L2, hL, g', hS'⟩ := removeOp_sched_gen g hS hw
+  refine ⟨L1, L2, hL, ?_⟩
+  have hpl' : AllPlain (c.removeOp (.op i)).1 := by
+    apply allPlain_of_schedule hS'
+    intro o ho
+    apply (hS.wf_plain g hpl o _).2
+    rw [hL]
+    rw [List.map_append] at ho ⊢
+    rcases List.mem_append.mp ho with ho | ho
+    · exact List.mem_append.mpr (Or.inl ho)
+    · exact List.mem_append.mpr (Or.inr (List.mem_cons_of_mem _ ho))
+  have := metrics_eq_spec_on_any_schedule g' hpl' hS'
+  simpa using this
+
+/-- **`replace_op(node, new)` = replace in place** (successful call: same quantum and classical registers): the entry of the node
+    now holds `new` as wired, everything else is unchanged -/
+theorem metrics_after_replace_op {c : Dag} {P : Reg → List NodeId} {L : List (NodeId × Op)} (g : Good c P) (hpl : AllPlain c)
+    (hS : Sched c P L) {i : Nat} {old new : Op} (hold : (NodeId.op i, old) ∈ c.nodes) (hnew : OpWF new) (hp : PlainOp' new)
+    (hq : old.qregs = new.qregs) (hc : old.cregs = new.cregs) :
+    (c.replaceOp (.op i) new).2 = none ∧
+    MetricsMeetSpec (c.replaceOp (.op i) new).1
+      (L.map (fun p => if p.1 = NodeId.op i then wiredOp P (.op i) new else p.2)) := by
+  have heq := replaceOp_eq ((opOf_eq_some g.inv.ids_nodup).mpr hold) hq hc
+  rw [heq]
+  refine ⟨rfl, ?_⟩
+  obtain ⟨g', hS'⟩ := replaceOp_sched_gen g hS hold hnew hq hc
+  have hmap : (L.map (fun p => if p.1 = NodeId.op i then (NodeId.op i, wiredOp P (.op i) new) else p)).map (·.2) =
+      L.map (fun p => if p.1 = NodeId.op i then wiredOp P (.op i) new else p.2) := by
+    rw [List.map_map]
+    apply List.map_congr_left
+    intro p _
+    simp only [Function.comp]
+    by_cases h : p.1 = NodeId.op i <;> simp [h]
+  have hpl' : AllPlain (c.replaced (.op i) old new) := by
+    apply allPlain_of_schedule hS'
+    intro o ho
+    rw [hmap] at ho
+    obtain ⟨p, hpL, rfl⟩ := List.mem_map.mp ho
+    by_cases h : p.1 = NodeId.op i
+    · rw [if_pos h]; exact plainOp'_wiredOp hp
+    · rw [if_neg h]; exact (hS.wf_plain g hpl p.2 (List.mem_map.mpr ⟨p, hpL, rfl⟩)).2
+  have := metrics_eq_spec_on_any_schedule g' hpl' hS'
+  rwa [hmap] at this
+
+/-- **`insert_at(op, edges)` = insert into the operation list**: when the call succeeds (well-formed edges), there are operation
+    lists `A`, `B` such that `A ++ B` is the operation list of a schedule of the circuit before, and all metrics afterwards equal the
+    specifications on `A ++ [op on its quantum registers] ++ B` — `insert_at` threads the new node on the quantum wires of the given
+    edges only, so its `c_registers` create no dependency (`quantumPart`) -/
+theorem metrics_after_insert_at {c : Dag} {P : Reg → List NodeId} (g : Good c P) (hpl : AllPlain c) {op : Op} (hop : OpWF op)
+    (hp : PlainOp' op) {es : List Edge} (hok : InsertOK c op es) (hsucc : (c.insertAt op es).2 = none) :
+    ∃ (A B : List Op) (L : List (NodeId × Op)), Sched c P L ∧ L.map (·.2) = A ++ B ∧
+      MetricsMeetSpec (c.insertAt op es).1 (A ++ quantumPart op :: B) := by
+  obtain ⟨P', A, B, L, n, g', hS', hS, hmap⟩ := insertAt_sched_gen g hop hok hsucc
+  refine ⟨A.map (·.2), B.map (·.2), L, hS, hmap, ?_⟩
+  have hLpl := hS.wf_plain g hpl
+  have hpl' : AllPlain (c.insertAt op es).1 := by
+    apply allPlain_of_schedule hS'
+    intro o ho
+    rw [List.map_append, List.map_cons] at ho
+    rcases List.mem_append.mp ho with ho | ho
+    · exact (hLpl o (by rw [hmap]; exact List.mem_append.mpr (Or.inl ho))).2
+    · rcases List.mem_cons.mp ho with rfl | ho
+      · exact { labels := hp.labels, arity := hp.arity, inner_base := hp.inner_base }
+      · exact (hLpl o (by rw [hmap]; exact List.mem_append.mpr (Or.inr ho))).2
+  have := metrics_eq_spec_on_any_schedule g' hpl' hS'
+  simpa using this
+
+/-! ### the rewrites act on the specification's operation list -/
+
+/-- **`unwrap_nodes` = flatMap-unwrap on the operation list**: on any circuit satisfying DagInv with plain operations and any
+    schedule `L`, the call succeeds and all metrics of the result equal their specifications on the unwrapped operation list of `L` -/
+theorem metrics_after_unwrap_nodes {c : Dag} {P : Reg → List NodeId} {L : List (NodeId × Op)} (g : Good c P) (hpl : AllPlain c)
+    (hS : Sched c P L) : c.unwrapNodes.2 = none ∧ MetricsMeetSpec c.unwrapNodes.1 ((L.map (·.2)).flatMap Op.unwrap) := by
+  obtain ⟨he, P', L', g', hS', hpl', hL'⟩ := unwrapNodes_sched_gen g hpl hS
+  exact ⟨he, hL' ▸ metrics_eq_spec_on_any_schedule g' hpl' hS'⟩
+
+/-- **`remove_identity` = filter on the operation list** -/
+theorem metrics_after_remove_identity {c : Dag} {P : Reg → List NodeId} {L : List (NodeId × Op)} (g : Good c P) (hpl : AllPlain c)
+    (hS : Sched c P L) :
+    c.removeIdentity.2 = none ∧
+      MetricsMeetSpec c.removeIdentity.1 ((L.map (·.2)).filter (fun o => !decide (o.kind = .identity))) := by
+  obtain ⟨he, P', L', g', hS', hpl', hL'⟩ := removeIdentity_sched_gen g hpl hS
+  exact ⟨he, hL' ▸ metrics_eq_spec_on_any_schedule g' hpl' hS'⟩
+
+/-! ### the metrics are functions of the per-register operation sequences -/
+
+/-- a circuit satisfying DagInv has a node iff it has a register -/
+theorem nodes_nonempty_iff_register {c : Dag} {P : Reg → List NodeId} (g : Good c P) : c.nodeIds ≠ [] ↔ ∃ r, c.live r := by
+  constructor
+  · intro hne
+    obtain ⟨n, hn⟩ := List.exists_mem_of_ne_nil _ hne
+    cases n with
+    | inp r => exact ⟨r, (g.inv.inp_iff r).mp hn⟩
+    | out r => exact ⟨r, (g.inv.out_iff r).mp hn⟩
+    | op i =>
+      obtain ⟨o, ho⟩ := mem_nodeIds.mp hn
+      have hwf := g.inv.op_wf i o ho
+      cases hq : o.qregs with
+      | nil => exact absurd hq hwf.qregs_ne
+      | cons r t =>
+        have hr : r ∈ o.qregs := by rw [hq]; simp
+        have hm := (g.mem.mem_q i o ho r (hwf.qregs_quantum r hr)).mpr hr
+        refine ⟨r, ?_⟩
+        by_cases hl : c.live r
+        · exact hl
+        · rw [g.inv.dead r hl] at hm; simp at hm
+  · rintro ⟨r, hl⟩ h
+    have := (g.inv.inp_iff r).mpr hl
+    rw [h] at this; simp at this
+
+/-- **Wire determinacy.**  `wiredWire c P r` is the sequence of operations on the wire of register `r` (as wired, in wire order) —
+    what `reg_gate_history` shows, without node identities.  Two circuits that satisfy DagInv, hold plain operations, have the same
+    register counts and the same operation sequence on every wire admit schedules with the SAME operation list; so every
+    specification, hence every metric, takes the same value on both: the metrics are functions of the per-register operation
+    sequences and the register counts alone. -/
+theorem metrics_determined_by_wire_sequences {c c' : Dag} {P P' : Reg → List NodeId} (g : Good c P) (g' : Good c' P')
+    (hpl : AllPlain c) (hpl' : AllPlain c') (hregs : c'.regs = c.regs)
+    (hw : ∀ r, c.live r → wiredWire c' P' r = wiredWire c P r) :
+    ∃ ops, MetricsMeetSpec c ops ∧ MetricsMeetSpec c' ops := by
+  have hw' : ∀ r, wiredWire c' P' r = wiredWire c P r := by
+    intro r
+    by_cases hl : c.live r
+    · exact hw r hl
+    · have hl' : ¬ c'.live r := fun h => hl ((live_eq_of_regs hregs r).mp h)
+      unfold wiredWire
+      rw [g.inv.dead r hl, g'.inv.dead r hl']
+      rfl
+  obtain ⟨L, L', hS, hS', hmap⟩ := same_wiredWires_same_ops g g' hw'
+  refine ⟨L.map (·.2), metrics_eq_spec_on_any_schedule g hpl hS, ?_⟩
+  rw [← hmap]
+  exact metrics_eq_spec_on_any_schedule g' hpl' hS'
+
+/-- … spelled out: equal register counts and equal wire sequences give equal metric values -/
+theorem equal_wires_equal_metrics {c c' : Dag} {P P' : Reg → List NodeId} (g : Good c P) (g' : Good c' P')
+    (hpl : AllPlain c) (hpl' : AllPlain c') (hregs : c'.regs = c.regs)
+    (hw : ∀ r, c.live r → wiredWire c' P' r = wiredWire c P r) :
+    Metrics.cnotCount c' = Metrics.cnotCount c ∧ Metrics.measureCount c' = Metrics.measureCount c ∧
+    Metrics.unitaryCount c' = Metrics.unitaryCount c ∧ Metrics.circuitDepth c' = Metrics.circuitDepth c ∧
+    (∀ t, c'.calculateRegDepth t = c.calculateRegDepth t) ∧ Metrics.maxEmitDepth c' = Metrics.maxEmitDepth c ∧
+    Metrics.maxEmitResetDepth c' = Metrics.maxEmitResetDepth c ∧ Metrics.maxEmitEffDepth c' = Metrics.maxEmitEffDepth c := by
+  obtain ⟨ops, m, m'⟩ := metrics_determined_by_wire_sequences g g' hpl hpl' hregs hw
+  have hnE : c'.nE = c.nE := congrFun hregs .e
+  refine ⟨m'.cnot.trans m.cnot.symm, m'.measure.trans m.measure.symm, m'.unitary.trans m.unitary.symm, ?_, ?_,
+    ?_, ?_, ?_⟩
+  · by_cases hne : c.nodeIds ≠ []
+    · have hne' : c'.nodeIds ≠ [] := by
+        obtain ⟨r, hl⟩ := (nodes_nonempty_iff_register g).mp hne
+        exact (nodes_nonempty_iff_register g').mpr ⟨r, (live_eq_of_regs hregs r).mpr hl⟩
+      exact (m'.depth_model hne').trans (m.depth_model hne).symm
+    · have h0 : c.nodeIds = [] := by simpa using hne
+      have h0' : c'.nodeIds = [] := by
+        by_cases h : c'.nodeIds = []
+        · exact h
+        · obtain ⟨r, hl⟩ := (nodes_nonempty_iff_register g').mp h
+          exact absurd ((nodes_nonempty_iff_register g).mpr ⟨r, (live_eq_of_regs hregs r).mp hl⟩) hne
+      unfold Metrics.circuitDepth Dag.depth Dag.longestPathLen Dag.distTable
+      rw [h0, h0']
+      rfl
+  · intro t
+    rw [m'.register_depth t, m.register_depth t, hregs]
+  · rw [m'.max_emitter_depth, m.max_emitter_depth, hnE]
+  · rw [m'.reset_depth, m.reset_depth, hnE]
+  · rw [m'.effective_depth, m.effective_depth, hnE]
+
 /-! ### the theorems for `add`-built circuits are the special case "schedule = creation order" -/
 
 /-- a circuit built by `add` has the schedule "nodes in creation order" whose operation list is `seq` itself — so §2–§5 are
@@ -391,6 +613,13 @@ theorem metrics_after_history (ne np nc : Nat) (es : List C12.Edit) (hok : C12.H
   obtain ⟨⟨P, g⟩, hh⟩ := C12.groupHyp_on_every_reachable_circuit ne np nc es hok
   exact ⟨P, g, sched_exists g, fun L hS => metrics_eq_spec_on_any_schedule g hh.plain hS⟩
 
+/-- the same from ANY starting circuit that satisfies DagInv and holds graphiq-constructed operations (e.g. a circuit some other
+    history produced, or one imported from openQASM/JSON by a sequence of `add`s) -/
+theorem metrics_after_history_from {c : Dag} (h : DagInv c) (hh : GroupHyp c) (es : List C12.Edit) (hok : C12.HistOKg c es) :
+    MetricsMeetSpec (C12.run c es) (wireOpList (C12.run c es)) := by
+  obtain ⟨⟨P, g⟩, hh'⟩ := C12.history_groupHyp es h hh hok
+  exact metrics_eq_spec_of_wires g hh'.plain
+
 /-- … in closed form: the metrics of the reached circuit are the specifications evaluated on `wireOpList` of it, a computable
     function of the wires `reg_gate_history` returns and of the node operations -/
 theorem metrics_after_history_of_wires (ne np nc : Nat) (es : List C12.Edit) (hok : C12.HistOKg (Dag.init ne np nc) es) :
@@ -406,6 +635,29 @@ theorem metrics_after_history_wires (ne np nc : Nat) (es : List C12.Edit) (hok :
       ∀ r, r.idx < (C12.run (Dag.init ne np nc) es).regs r.ty → (C12.run (Dag.init ne np nc) es).regGateHistory r = .ok (P r) := by
   obtain ⟨⟨P, g⟩, _⟩ := C12.groupHyp_on_every_reachable_circuit ne np nc es hok
   exact ⟨P, g, fun r hl => regGateHistory_eq_wire g.inv hl⟩
+
+/-! ## 8. what the ASAP specification means: lengths of longest dependency chains
+
+  `Spec.depth` / `Spec.regDepth` / `Spec.layerOf` are computed by layering the operation list over shared registers.  They are the
+  definitional quantities of the property — "depth = length of the longest dependency chain" — by the theorems below, which speak of
+  the operation list only: a dependency chain (`Chain seq pre o k`) is a subsequence of `k` operations ending at the operation `o`
+  standing after the prefix `pre`, consecutive ones sharing a register. -/
+
+/-- the ASAP layer of an operation = the length of the longest dependency chain ending at it (attained, and an upper bound) -/
+theorem asap_layer_is_longest_chain {seq pre : List Op} {o : Op} {suf : List Op} (hseq : seq = pre ++ o :: suf) :
+    Chain seq pre o (Spec.layerOf (Spec.fronts pre) o) ∧ ∀ k, Chain seq pre o k → k ≤ Spec.layerOf (Spec.fronts pre) o :=
+  layer_is_longest_chain hseq
+
+/-- **`Spec.depth` = the length of the longest dependency chain of the operation list** -/
+theorem spec_depth_is_longest_chain (seq : List Op) :
+    (∀ pre o k, Chain seq pre o k → k ≤ Spec.depth seq) ∧ (seq ≠ [] → ∃ pre o, Chain seq pre o (Spec.depth seq)) :=
+  depth_is_longest_chain seq
+
+/-- **`Spec.regDepth seq r` = the length of the longest dependency chain ending at an operation on register `r`** (0 if none) -/
+theorem spec_reg_depth_is_longest_chain (seq : List Op) (r : Reg) :
+    (∀ pre o k, Chain seq pre o k → r ∈ opRegs o → k ≤ Spec.regDepth seq r) ∧
+    (Spec.regDepth seq r = 0 ∨ ∃ pre o, r ∈ opRegs o ∧ Chain seq pre o (Spec.regDepth seq r)) :=
+  regDepth_is_longest_chain seq r
 
 /-! ## 9. non-vacuity -/
 
@@ -572,8 +824,26 @@ example : (Metrics.maxEmitDepth histCircuit).toOption = some 4 ∧ (Spec.maxEmit
     (Spec.maxEmitResetDepth 2 (histSchedule.map (·.2))).toOption = some 3 := by decide
 example : (Metrics.maxEmitEffDepth histCircuit).toOption = some 3 ∧
     (Spec.maxEmitEffDepth 2 (histSchedule.map (·.2))).toOption = some 3 := by decide
+example : Metrics.circuitDepth histCircuit = 6 := by decide
 example : histCircuit.registerDepth.toOption = some ([2, 6], [3], [0]) ∧
     (List.range 2).map (fun i => Spec.regDepth (histSchedule.map (·.2)) ⟨.e, i⟩) = [2, 6] ∧
     Spec.regDepth (histSchedule.map (·.2)) ⟨.c, 0⟩ = 0 ∧ Spec.depth (histSchedule.map (·.2)) = 6 := by decide
+
+/-- wire determinacy, non-vacuity: `add(CNOT e0→e1); add(H p0)` and `add(H p0); add(CNOT e0→e1)` are different circuits (the node
+    identities are swapped) with the same register counts and the same operation sequence on every wire (kernel-evaluated on the
+    wires `reg_gate_history` returns) — the hypotheses of `equal_wires_equal_metrics` -/
+example : (build 2 1 0 [hP0, cnotEE]).1.nodes ≠ (build 2 1 0 [cnotEE, hP0]).1.nodes ∧
+    (build 2 1 0 [hP0, cnotEE]).1.regs = (build 2 1 0 [cnotEE, hP0]).1.regs ∧
+    ∀ r ∈ liveRegs (build 2 1 0 [cnotEE, hP0]).1,
+      wiredWire (build 2 1 0 [hP0, cnotEE]).1 (wireOf (build 2 1 0 [hP0, cnotEE]).1) r =
+        wiredWire (build 2 1 0 [cnotEE, hP0]).1 (wireOf (build 2 1 0 [cnotEE, hP0]).1) r := by
+  refine ⟨by decide, by funext t; cases t <;> rfl, by decide⟩
+
+/-- a chain of three operations in `seq2`: `CNOT e0→e1`, the wrapper on `e1`, the measurement on `e1, p0` -/
+example : Chain seq2 [cnotEE, wrapE1] mcr 3 :=
+  Chain.snoc (pre1 := [cnotEE]) (mid := []) (suf2 := [idP0, hP0, cnotEE])
+    (Chain.snoc (pre1 := []) (mid := []) (suf2 := [mcr, idP0, hP0, cnotEE]) (Chain.single (suf := [wrapE1, mcr, idP0, hP0, cnotEE]) rfl) rfl
+      ⟨⟨.e, 1⟩, by decide, by decide⟩)
+    rfl ⟨⟨.e, 1⟩, by decide, by decide⟩
 
 end Graphiq.C18
